@@ -32,6 +32,8 @@ from flipjump.fjm.fjm_consts import (
 )
 from flipjump.utils.exceptions import FlipJumpReadFjmException, FlipJumpRuntimeMemoryException
 
+_DECOMPRESSION_CHUNK_SIZE = 1 << 20  # the compressed data is decompressed in chunks of at most this many bytes
+
 
 class GarbageHandling(IntEnum):
     """
@@ -80,7 +82,7 @@ class Reader:
                 self._init_header_fields(fjm_file)
                 self._validate_header()
                 segments = self._init_segments(fjm_file)
-                data = self._read_decompressed_data(fjm_file)
+                data = self._read_decompressed_data(fjm_file, segments)
                 self._init_memory(segments, data)
         except struct.error as se:
             exception_message = f"Bad file {input_file}, can't unpack. Maybe it's not a .fjm file?"
@@ -120,13 +122,33 @@ class Reader:
             raise FlipJumpReadFjmException(f'Error: bad reserved value ({self.reserved}, should be 0).')
 
     @staticmethod
-    def _decompress_data(compressed_data: bytes) -> bytes:
+    def _decompress_data(compressed_data: bytes, used_bytes: int, word_bytes_size: int) -> bytes:
+        """
+        The compressed data is one lzma stream (as the writer produces). It is decompressed in bounded chunks, and only
+        the first used_bytes (what the segments refer to) are kept - so neither the time nor the memory that reading takes
+        can be out of proportion to the file and to what its segment table declares.
+        """
         try:
-            return lzma.decompress(compressed_data, format=_LZMA_FORMAT, filters=_LZMA_DECOMPRESSION_FILTERS)
+            decompressor = lzma.LZMADecompressor(format=_LZMA_FORMAT, filters=_LZMA_DECOMPRESSION_FILTERS)
+            kept_chunks = []
+            total_length = 0
+            while not decompressor.eof:
+                chunk = decompressor.decompress(compressed_data, max_length=_DECOMPRESSION_CHUNK_SIZE)
+                compressed_data = b''
+                if not chunk and decompressor.needs_input:
+                    raise FlipJumpReadFjmException('Error: The compressed data is truncated; Unable to decompress.')
+                if total_length < used_bytes:
+                    kept_chunks.append(chunk[: used_bytes - total_length])
+                total_length += len(chunk)
         except lzma.LZMAError as e:
             raise FlipJumpReadFjmException('Error: The compressed data is damaged; Unable to decompress.') from e
+        if decompressor.unused_data:
+            raise FlipJumpReadFjmException('Error: unexpected bytes after the end of the compressed data.')
+        if total_length % word_bytes_size != 0:
+            raise FlipJumpReadFjmException('Error: The decompressed data is not a whole number of words.')
+        return b''.join(kept_chunks)
 
-    def _read_decompressed_data(self, fjm_file: BinaryIO) -> List[int]:
+    def _read_decompressed_data(self, fjm_file: BinaryIO, segments: List[Tuple[int, int, int, int]]) -> List[int]:
         """
         @param fjm_file: [in]: read from this file the data words.
         @return: list of the data words (decompressed if it was compressed).
@@ -136,7 +158,8 @@ class Reader:
 
         file_data = fjm_file.read()
         if FJMVersion.CompressedVersion == self.version:
-            file_data = self._decompress_data(file_data)
+            used_words = max((data_start + data_length for _, _, data_start, data_length in segments), default=0)
+            file_data = self._decompress_data(file_data, used_words * word_bytes_size, word_bytes_size)
 
         data = [
             unpack(read_tag, file_data[i : i + word_bytes_size])[0]  # noqa: E203
